@@ -5,6 +5,7 @@ import (
 
 	"encoding/json"
 	"errors"
+	"flag"
 	"fmt"
 	"io/fs"
 	"math/rand"
@@ -38,6 +39,9 @@ type c18Case struct {
 
 const openCap = 64          // far above what any build of <= 5 files and <= 8 references needs
 const watchdog = 5 * time.Second
+
+// -fmtmod k: the FormatFS pass is made for the cases whose id is a multiple of k (1 = all)
+var fmtMod = flag.Int("fmtmod", 1, "FormatFS pass for ids divisible by this")
 
 var errRunaway = errors.New("c18 harness: too many Open calls, build cut off")
 
@@ -230,6 +234,9 @@ func main() {
 			drv.Must(json.Unmarshal(raw, &c))
 			if c.Refs == nil {
 				c.Refs = []ref{}
+			}
+			if *fmtMod > 1 && c.ID%*fmtMod != 0 {
+				return []any{runOne(&c, "plain")}
 			}
 			return []any{runOne(&c, "plain"), runOne(&c, "format")}
 		},
